@@ -21,6 +21,7 @@ var registry = map[string]entry{
 	"C05": {"exploration", props.C05},
 	"C10": {"fault_enumeration", props.C10},
 	"C12": {"exploration", props.C12},
+	"C18": {"exploration", props.C18},
 	"C19": {"fault_enumeration", props.C19},
 	"C20": {"exploration", props.C20},
 }
